@@ -63,7 +63,7 @@ def target_xp(rb):
     return rb.values.get("xp")
 
 
-def dtype_converted(v, target, sources) -> tuple:
+def dtype_converted(v, target, sources, has_request=False) -> tuple:
     """Every leaf of the dtype value is convert_dtype/resolve_dtype(<source or
     requested dtype>, target)."""
     leaves = list(T.phi_leaves(v))
@@ -75,6 +75,34 @@ def dtype_converted(v, target, sources) -> tuple:
             return False, "dtype helper called without a namespace"
         if target is not None and args[1] != target and not (args[1][0] == "ref" and target[0] == "ref" and args[1][1].split(".")[-1] == target[1].split(".")[-1]):
             return False, f"dtype converted for {T.show(args[1])[:60]}, not for the target namespace {T.show(target)[:60]}"
+    # which dtype is converted on which path: the requested one when one was requested, else the source's
+    src_dtypes = {("attr", s_, "dtype") for s_ in sources}
+
+    def is_request(t):
+        return t == T.atom("dtype") or (t[0] == "f" and t[1] == "method:pop" and len(t[2]) >= 2 and t[2][1] == T.K("dtype"))
+
+    def walk(t, requested):  # requested: None unknown / True a dtype was requested on this path / False none was
+        if t[0] == "phi":
+            c, pol = t[1], True
+            if c[0] == "not":
+                c, pol = c[1], False
+            if c[0] == "is" and c[2] == T.NONE and is_request(c[1]):
+                # pol: the true branch is the one where the request is None
+                return walk(t[2], (not pol)) or walk(t[3], pol)
+            return walk(t[2], requested) or walk(t[3], requested)
+        a0 = t[2][0]
+        if is_request(a0):
+            if requested is False:
+                return f"the requested dtype is converted on the path where none was requested (it is None there): {T.show(t)[:100]}"
+            return None
+        if a0 in src_dtypes:
+            if requested is True or (requested is None and has_request):
+                return "a dtype requested by the caller is ignored: the source's dtype is converted instead"
+            return None
+        return f"the converted dtype {T.show(a0)[:60]} is neither the requested dtype nor the source's"
+    msg = walk(v, None if has_request else False)
+    if msg:
+        return False, msg
     return True, ""
 
 
@@ -118,7 +146,8 @@ def run(ctx):
                                "dtype is not passed to the constructor: the result falls back to the target namespace's default dtype, so float32 becomes float64 "
                                "(a converted dtype may be computed in the method, but it never reaches the result)", disc="dtype")
                 else:
-                    ok, msg = dtype_converted(v, tgt, rb.sources)
+                    has_req = "dtype" in m.params or any(e.callee == "method:pop" and len(e.args) >= 2 and e.args[1] == T.K("dtype") for e in rb.ev.events if e.func is m)
+                    ok, msg = dtype_converted(v, tgt, rb.sources, has_req)
                     ctx.decide(ok, "C15.dtype", construct, loc, "dtype handed to the constructor is converted for the target namespace", msg, disc="dtype")
                 continue
             if v is None and rb.splat is None:
@@ -130,12 +159,16 @@ def run(ctx):
                                    f"{f.name} of the source set is dropped: the {R.name} result takes the default ({'namespace default precision' if f.name == 'dtype' else 'None'})", disc=f.name)
                 continue
             if v is None:
+                # **kwargs may supply anything, but from_samples' contract is to copy the arrays and names of `samples`
+                if m.name == "from_samples" and (f.per_sample or f.name in ("x", "parameters")) and f.name in [x.name for x in repo.cls(f"{SAMPLES_MOD}:BaseSamples").init_fields()]:
+                    ctx.refute("C15.carry", construct, loc, f"{f.name} of the source set is not handed to the constructor (only a caller-supplied keyword could fill it): "
+                               f"the converted {R.name} loses it", disc=f.name)
                 continue
             if why:
                 ctx.prove("C15.carry", construct, loc, f"{f.name} filled ({T.show(v)[:40]}); policy would allow dropping it", disc=f.name, trivial=True)
                 continue
             srcs = rb.sources
-            okv = derives_from(v, srcs, f.name) or (m.name == "resample" and f.name == "beta" and v == T.atom("beta"))
+            okv = derives_from(v, srcs, f.name, allow_none=(m.name == "concatenate")) or (m.name == "resample" and f.name == "beta" and v == T.atom("beta"))
             ctx.decide(okv, "C15.carry", construct, loc, f"{f.name} carried from the source's {f.name}",
                        f"{f.name} of the result is {T.show(v)[:100]}, which is not the source's {f.name}", disc=f.name)
         # asarray calls inside conversions must not be handed the source-namespace dtype object
@@ -300,6 +333,10 @@ MUTANTS = [
     M("array_to_namespace into numpy always", _S, "x = asarray(x, self.xp, **kwargs)", "x = asarray(x, np, **kwargs)", "C15.a2n"),
 ]
 MUTANTS += [
+    M("conversion keeps the likelihood only when it is unset", _S, "log_likelihood=asarray(self.log_likelihood, xp, dtype=dtype)\n            if self.log_likelihood is not None\n            else None,", "log_likelihood=asarray(self.log_likelihood, xp, dtype=dtype)\n            if self.log_likelihood is None\n            else None,", "C15.carry"),
+    M("from_samples loses the likelihood", _S, "x=samples.x,\n            log_likelihood=samples.log_likelihood,\n            log_prior=samples.log_prior,", "x=samples.x,\n            log_prior=samples.log_prior,", "C15.carry"),
+    M("to_numpy ignores a requested dtype", _S, "if dtype is not None:\n            dtype = resolve_dtype(dtype, np)\n        else:\n            dtype = convert_dtype(self.dtype, np)", "if dtype is None:\n            dtype = resolve_dtype(dtype, np)\n        else:\n            dtype = convert_dtype(self.dtype, np)", "C15.dtype"),
+    M("to_namespace ignores a requested dtype", _S, "if dtype is None:\n            dtype = convert_dtype(self.dtype, xp)\n        else:\n            dtype = resolve_dtype(dtype, xp)", "dtype = convert_dtype(self.dtype, xp)", "C15.dtype", within="BaseSamples.to_namespace"),
     M("from_samples computes dtype and drops it", _S, "device=device,\n            dtype=dtype,\n            **kwargs,", "device=device,\n            **kwargs,", "C15.dtype"),
     M("base to_numpy drops dtype", _S, "xp=np,\n            dtype=dtype,\n        )", "xp=np,\n        )", "C15.dtype"),
     M("Samples.to_numpy drops dtype", _S, "dtype=convert_dtype(self.dtype, np),\n        )\n\n    def to_dataframe", ")\n\n    def to_dataframe", "C15.dtype"),
